@@ -272,7 +272,9 @@ func bfs(t *testing.T, spec *bfsSpec, res map[string]*vh.Result, main string, de
 					return
 				}
 				vh.CheckpointKey(main, "C05/crash/"+spec.Name, worldReplay{spec.Name, h})
+				stopGuard := vh.Guard(main, main+"/"+spec.Name, worldReplay{spec.Name, h}, 120*time.Second)
 				o := runWorld(t, spec, h, false)
+				stopGuard()
 				if !o.valid {
 					continue
 				}
@@ -298,6 +300,7 @@ func bfs(t *testing.T, spec *bfsSpec, res map[string]*vh.Result, main string, de
 		}
 		completed = d + 1
 		frontier = next
+		r.Write() // partial results survive a worker that dies later
 		if len(frontier) == 0 {
 			break
 		}
